@@ -1,5 +1,5 @@
 SPECIFICATION TraceSpec
 CONSTANTS
-  Fix = {"tail", "suffix", "epoch"}
+  Pubs = {"p1", "p2", "p3"}
 POSTCONDITION Done
 CHECK_DEADLOCK FALSE
